@@ -1,5 +1,5 @@
 From Coq Require Import Extraction ExtrOcamlBasic ZArith.
-From GmVerif Require Import Base.Bytes Hash.MD Hash.SM3 Sm9.Tower Sm9.ModN.
+From GmVerif Require Import Base.Bytes Hash.MD Hash.SM3 Sm9.Tower Sm9.ModN Codec.Der Sm9.Sm9Der.
 Extraction Language OCaml.
 Extraction "../ocaml/gen/ModelC17.ml"
   Z.of_N N.of_nat Z.ltb Z.leb Z.eqb Z.modulo Z.mul Z.add Z.sub Z.opp Z.pow
@@ -15,4 +15,5 @@ Extraction "../ocaml/gen/ModelC17.ml"
   S12add S12sub S12neg S12mul S12line S12inv S12frob S12one
   canon2 canon4 canon12 R12mul R12pow R4pow
   modn_add modn_sub from_hash_impl from_hash_spec fh_quot
-  sm9_hash1_impl sm9_hash1_spec sm9_hash2_impl sm9_hash2_spec.
+  sm9_hash1_impl sm9_hash1_spec sm9_hash2_impl sm9_hash2_spec
+  sm9_sig_from_der sm9_sig_decode sm9_ct_from_der sm9_ct_decode sig_to_der ct_to_der g1_octets_ok.
